@@ -25,6 +25,10 @@ pub struct NameDec {
     pub ptrs: usize,
     /// true iff every pointer followed pointed strictly before its own position
     pub backward_only: bool,
+    /// true iff every pointer followed pointed strictly before the start of the label run it
+    /// ends (the name being read, or the run reached through the previous pointer): the target is
+    /// then a *prior* occurrence in the sense of RFC 1035 4.1.4, not a place inside the run itself
+    pub prior_only: bool,
     /// offsets (in the message) at which each label of the name starts, in order
     pub label_offsets: Vec<usize>,
     /// every pointer followed: (position of the pointer, its target), in order
@@ -48,6 +52,8 @@ pub fn decode_name(msg: &[u8], off: usize) -> Result<NameDec, NameErr> {
     let mut total = 0usize;
     let mut ptrs = 0usize;
     let mut backward_only = true;
+    let mut prior_only = true;
+    let mut run_start = off;
     let mut visited: Vec<usize> = Vec::new();
     let mut pointers: Vec<(usize, usize)> = Vec::new();
     let mut inplace = usize::MAX;
@@ -95,6 +101,10 @@ pub fn decode_name(msg: &[u8], off: usize) -> Result<NameDec, NameErr> {
                 if target >= pos {
                     backward_only = false;
                 }
+                if target >= run_start {
+                    prior_only = false;
+                }
+                run_start = target;
                 ptrs += 1;
                 pointers.push((pos, target));
                 pos = target;
@@ -105,7 +115,7 @@ pub fn decode_name(msg: &[u8], off: usize) -> Result<NameDec, NameErr> {
     if inplace == usize::MAX {
         inplace = labels.len();
     }
-    Ok(NameDec { name: RefName(labels), next: next.unwrap(), ptrs, backward_only, label_offsets, pointers, inplace })
+    Ok(NameDec { name: RefName(labels), next: next.unwrap(), ptrs, backward_only, prior_only, label_offsets, pointers, inplace })
 }
 
 #[derive(Debug, Clone)]
